@@ -56,6 +56,9 @@ func (w *World) VerifyFunction(fn *ssa.Function, opts VerifyOpts) (res *FuncResu
 		}
 		res.Notes = sortedKeys(ex.Notes)
 		res.Paths = ex.Paths + 1
+		if res.Unsupported == "" && len(ex.Partial) > 0 {
+			res.Unsupported = fmt.Sprintf("%d path(s) abandoned: %s", len(ex.Partial), ex.Partial[0])
+		}
 	}()
 	if len(fn.Blocks) == 0 {
 		unsupp("function %s has no body", fr.Name)
@@ -179,7 +182,10 @@ func (ex *Ex) checkPosts(fr *Frame, st *State, results []Val, opts VerifyOpts) {
 	var svs []SV
 	for i, r := range results {
 		t := fn.Signature.Results().At(i).Type()
-		svs = append(svs, SV{T: ex.termOf(fr, st, r, t), Ty: SType{G: t}})
+		rt := ex.termOf(fr, st, r, t)
+		svs = append(svs, SV{T: rt, Ty: SType{G: t}})
+		// name the code's result so that counterexample models show it
+		st.Assume(Eq(Var(fmt.Sprintf("res$%d", i), rt.S), rt))
 	}
 	if ctr != nil {
 		env := ex.newEnv(fr, st)
@@ -244,6 +250,9 @@ func (w *World) RunLemma(lem *Contract, opts VerifyOpts) (res *FuncResult) {
 		}
 		res.Notes = sortedKeys(ex.Notes)
 		res.Paths = ex.Paths + 1
+		if res.Unsupported == "" && len(ex.Partial) > 0 {
+			res.Unsupported = fmt.Sprintf("%d path(s) abandoned: %s", len(ex.Partial), ex.Partial[0])
+		}
 	}()
 	st := NewState()
 	for _, p := range lem.Params {
